@@ -44,6 +44,10 @@ history = {
  'C01j':'frozen','C02j':'frozen','C03j':'after','C04j':'frozen','C05j':'frozen','C06j':'frozen','C07j':'frozen','C08j':'frozen',
  'C09j':'frozen-other','C10j':'after','C11j':'frozen','C13j':'after','C14j':'after','C15j':'frozen','C16j':'frozen','C17j':'after',
  'C18j':'frozen','C19j':'frozen-other','C20j':'after',
+ # round k: rules frozen at tag rules-frozen-for-round-k-seeds; first run in refs/round_k_first_run.txt
+ 'C01k':'frozen','C02k':'frozen','C03k':'after','C04k':'frozen','C05k':'after','C06k':'frozen-other','C07k':'frozen','C08k':'frozen',
+ 'C09k':'after','C10k':'frozen','C11k':'frozen','C13k':'frozen','C14k':'frozen','C15k':'frozen-other','C16k':'after','C17k':'frozen',
+ 'C18k':'frozen','C19k':'frozen-other','C20k':'after',
 }
 seeds = sys.argv[1:] or sorted(d for d in os.listdir('seeded') if os.path.isdir('seeded/'+d))
 out = subprocess.run(['tools/run_seeds.sh'] + seeds, capture_output=True, text=True).stdout
